@@ -1060,6 +1060,18 @@ func rearmStopsPrevious(p *Prog, r *Report, R string, inPkg func(rel string) boo
 			if !ok2 {
 				if reason, listed := rearmAllowed[key]; listed {
 					ok2, why = true, "frozen exception: "+reason
+				} else {
+					// the arming moved into a private helper: the first allowed arming sites up
+					// its call chains stand for it
+					al := map[string]bool{}
+					for kk := range rearmAllowed {
+						if strings.HasSuffix(kk, "/"+fld) {
+							al[strings.TrimSuffix(kk, "/"+fld)] = true
+						}
+					}
+					if homes := p.callersWithin(p.FuncName(fn), al); len(homes) > 0 {
+						ok2, why = true, "frozen exception (through the helper's caller "+homes[0]+"): "+rearmAllowed[homes[0]+"/"+fld]
+					}
 				}
 			}
 			if !ok2 {
